@@ -79,6 +79,11 @@ def run(tier, seed):
     conc['behaviours'] += conc2['behaviours']
     for viol in conc['violations']:
         v.violation(viol['sig'], viol.get('replay'))
+    # the author's side of the path: the real signaling client (internal/wsclient) sends a batch and closes at once; the
+    # recipient, connected and reading all the while, gets every envelope Send accepted, in order
+    cc = vlib.run_vh_sharded(['client-close', '-thruserv', srv, '-rounds', '6' if tier == "quick" else '30'], 3, timeout=900)
+    for viol in cc['violations']:
+        v.violation(viol['sig'], viol.get('replay'))
     v.coverage = dict(states=r['distinct'], transitions=r['generated'], traces_validated_against_impl=res['behaviours'],
                       samples=res['samples'][:4],
                       tlc=dict(exhaustive=dict(config=SMALL, depth=depth, generated=r['generated'], distinct=r['distinct']),
